@@ -396,6 +396,7 @@ class CallMixin:
             # (asyncio.ensure_future(self._flush()) schedules it for later; that later run is not part of this call)
             self.note_assumption(f"coroutine {qual} created but not awaited here: its later execution is outside this unit")
             return fresh(ANY, "coroutine")
+        self.check_at_call(st, ci, fnode, args, kwargs, node)
         c = self.reg.contracts.get(qual)
         if c is not None and not c.inline and qual != self.unit_qual_inlining:
             return self.apply_contract(st, c, mi, ci, fnode, args, kwargs, node)
@@ -403,6 +404,32 @@ class CallMixin:
             self.note_assumption(f"call to {qual} treated as opaque (no effect, no exception)")
             return fresh(ANY, "opaque")
         return self.inline_call(st, mi, ci, fnode, args, kwargs, node, closure_env)
+
+    def check_at_call(self, st, ci, fnode, args, kwargs, node):
+        """at_call clauses of the unit under verification for this callee (only calls written in the unit's own body)."""
+        if len(self.contract_stack) != 1 or self.spec_mode:
+            return
+        uc = self.contract_stack[-1]
+        clauses = uc.at_call.get(fnode.name) if uc is not None and uc.at_call else None
+        if not clauses:
+            return
+        params, bound = self.bind_params(fnode, ci, args, kwargs, st, node)
+        env = {}
+        for p in params:
+            v = bound[p]
+            if isinstance(v, tuple) and v and v[0] == "default":
+                self.ctx.append((self.repo.modules[ci.module] if ci is not None else self.ctx[-1][0], ci, fnode))
+                try:
+                    v = self.ev(v[1], st)
+                finally:
+                    self.ctx.pop()
+            env[p] = v
+        env.pop("self", None)
+        for k, r in enumerate(clauses):
+            tmp = st.copy()
+            tmp.frames = tmp.frames[:-1] + [dict(tmp.frames[-1], **env)]
+            goal = self.ev_spec(r, tmp, old=self.entry_state)
+            self.oblige(st, goal, f"at_call[{fnode.name}][{k}]", self.src(node), node, note=r)
 
     def inline_call(self, st, mi, ci, fnode, args, kwargs, node, closure_env=None) -> V:
         qual = self.qual_of(mi, ci, fnode)
